@@ -542,6 +542,46 @@ func ruleTypestate(rule string) RuleFn {
 			if len(term) == 0 {
 				c.Bad(rule, pre+"(c) flag advances on success", "no store of the done value: the function would run on every demand", m.sink, nil)
 			}
+			if len(term) > 0 && m.extract != nil {
+				// (d) and it advances on EVERY success: once the results were extracted without error no path reaches a
+				// successful return around the store (a store under "something was staged", "not a dry run" ... leaves
+				// a function that succeeded to be executed again on the next demand)
+				var ti []ssa.Instruction
+				for _, st := range term {
+					ti = append(ti, st)
+				}
+				okAll := true
+				var at ssa.Instruction = m.extract
+				for _, e := range an.NilErrEdges(m.fn, m.extract, -1) {
+					first := e.From.Succs[e.Succ].Instrs[0]
+					success := func(i ssa.Instruction) bool {
+						r, ok := i.(*ssa.Return)
+						if !ok || len(r.Results) == 0 {
+							return false
+						}
+						v := an.Resolve(r.Results[len(r.Results)-1])
+						if k, ok := v.(*ssa.Const); ok && k.IsNil() {
+							return true
+						}
+						return v == ssa.Value(m.extract)
+					}
+					isTerm := false
+					for _, t := range ti {
+						if t == first {
+							isTerm = true
+						}
+					}
+					if isTerm {
+						continue
+					}
+					if success(first) {
+						okAll, at = false, first
+					} else if hit, _ := an.PathTo(m.fn, first, success, an.NewGates().AddInstr(ti...)); hit != nil {
+						okAll, at = false, hit
+					}
+				}
+				c.Check(okAll, rule, pre+"(d) every success stores the done value", "no successful return after the extraction avoids the store", "the function ran, its results were extracted without error, and a path returns success without storing the done value: the function is executed again on the next demand (a constructor that only feeds value groups is run once per consumer)", at, nil)
+			}
 			for _, st := range term {
 				cons := pre + "(c) done-flag is stored only after the results were extracted without error"
 				if m.extract == nil {
